@@ -400,7 +400,7 @@ func init() {
 		ID: "C14", Level: "exploration",
 		Rule: "configurations {navigator with / without NamespaceURL} x {Compile, CompileWithNS(nil), ({}), {p:u1}, {p:u2}, {x:u1,p:u2} (rebinding), {p:''}} x name tests {a, p:a, x:a, q:a, b, p:b, *} on all 12 axes (one step and after //) and name()/local-name()/namespace-uri() without argument from every context and with node-set arguments (empty, one, several nodes; reverse-axis arguments included), on every document of T(<=N) over names {a, p:a, q:a, p:b} under four URI assignment schemes (same prefix/different URI, different prefix/same URI, prefixed name with empty URI, default namespace); oracle = the documented match rule transcribed; an unbound prefix must be a compile error; non-trivial = non-empty denotation; distinct = distinct (configuration, expression)",
 		Assumptions:    []string{"hand-written reference evaluator", "lawful NodeNavigator", "namespace-uri() only claimed for navigators that expose URIs"},
-		Budget:         budget(120*time.Second, 25*time.Minute),
+		Budget:         budget(200*time.Second, 25*time.Minute),
 		MinRefOutcomes: 2,
 		Spaces:         c14Spaces,
 	})
